@@ -44,7 +44,8 @@ type c34Sched struct {
 	byGID  map[uint64]int
 	resume []chan struct{}
 	events chan c34Event
-	state  []string // "" = running, "done", or the point the goroutine is parked at
+	state  []string // "" = running (or blocked on a lock), "done", or the point the goroutine is parked at
+	gids   []uint64 // runtime goroutine ids
 	trace  []string
 	clock  int64
 }
@@ -58,7 +59,7 @@ func curGID() uint64 {
 }
 
 func newC34Sched(n int) *c34Sched {
-	s := &c34Sched{byGID: map[uint64]int{}, events: make(chan c34Event, 4*n+8), state: make([]string, n)}
+	s := &c34Sched{byGID: map[uint64]int{}, events: make(chan c34Event, 4*n+8), state: make([]string, n), gids: make([]uint64, n)}
 	for i := 0; i < n; i++ {
 		s.resume = append(s.resume, make(chan struct{}, 1))
 	}
@@ -84,6 +85,7 @@ func (s *c34Sched) spawn(id int, body func()) {
 	go func() {
 		s.mu.Lock()
 		s.byGID[curGID()] = id
+		s.gids[id] = curGID()
 		s.mu.Unlock()
 		s.events <- c34Event{id, "start"}
 		<-s.resume[id]
@@ -102,17 +104,46 @@ func (s *c34Sched) apply(ev c34Event) {
 	s.trace = append(s.trace, fmt.Sprintf("g%d@%s", ev.id, ev.point))
 }
 
-// waitFor blocks until goroutine id is parked or done again (or, only if the code under test blocks it on a
-// lock held by a parked goroutine, until the grace period is over). Returns false on such a block.
-func (s *c34Sched) waitFor(id int, grace time.Duration) bool {
-	deadline := time.After(grace)
+// goroutineStatus returns the scheduler status of a runtime goroutine ("running", "chan receive",
+// "sync.Mutex.Lock", "IO wait", ...) as printed by runtime.Stack.
+func goroutineStatus(gid uint64) string {
+	buf := make([]byte, 1<<18)
+	n := runtime.Stack(buf, true)
+	marker := []byte(fmt.Sprintf("goroutine %d [", gid))
+	i := bytes.Index(buf[:n], marker)
+	if i < 0 {
+		return ""
+	}
+	rest := buf[i+len(marker) : n]
+	j := bytes.IndexByte(rest, ']')
+	if j < 0 {
+		return ""
+	}
+	return string(rest[:j])
+}
+
+// waitFor blocks until goroutine id is parked or done again. Should the code under test serialize the relay
+// path with a lock (it does not on the pinned tree), a resumed goroutine can block on a lock held by a parked
+// one: that is recognised from its runtime status (twice in a row) and reported as blocked; the goroutine then
+// continues whenever the lock is released.
+func (s *c34Sched) waitFor(id int) bool {
+	locked := 0
 	for s.state[id] == "" {
 		select {
 		case ev := <-s.events:
 			s.apply(ev)
-		case <-deadline:
-			s.trace = append(s.trace, fmt.Sprintf("g%d@blocked", id))
-			return false
+			locked = 0
+		case <-time.After(2 * time.Millisecond):
+			st := goroutineStatus(s.gids[id])
+			if strings.HasPrefix(st, "sync.Mutex.Lock") || strings.HasPrefix(st, "sync.RWMutex") || strings.HasPrefix(st, "semacquire") {
+				locked++
+			} else {
+				locked = 0
+			}
+			if locked >= 2 {
+				s.trace = append(s.trace, fmt.Sprintf("g%d@blocked", id))
+				return false
+			}
 		}
 	}
 	return true
@@ -138,7 +169,7 @@ func (s *c34Sched) step(pick int) int {
 	id := p[pick%len(p)]
 	s.state[id] = ""
 	s.resume[id] <- struct{}{}
-	s.waitFor(id, 300*time.Millisecond)
+	s.waitFor(id)
 	return id
 }
 
@@ -183,8 +214,9 @@ func TestC34(t *testing.T) {
 			"from a pool of 1..k distinct relays of one session (so identical and distinct relays race), optionally one goroutine seals as the claim sender does (evidence iterator read, "+
 			"then GenerateMerkleRoot); every goroutine parks at the two instrumented points and a drawn id sequence picks who runs next (one goroutine runs at a time). "+
 			"Oracle at quiescence: no two stored proofs with equal hash, NumOfProofs == len(Proofs) <= per-node allowance, every relay answered with a valid node signature before the seal began is stored. "+
-			"non-trivial = case with a schedule in which two goroutines were between validation and storage at the same time",
-		map[string]float64{"overlap": 0.5, "identical-relays-race": 0.3, "with-sealer": 0.3, "limit-reached": 0.2},
+			"non-trivial = case with a schedule in which, while one relay goroutine was parked between validation and storage, another relay goroutine was scheduled "+
+			"(without serialization in the code both are then inside that window at once - label overlap; with a lock the second one blocks - label blocked-on-lock)",
+		map[string]float64{"contended": 0.5, "identical-relays-race": 0.3, "with-sealer": 0.3, "limit-reached": 0.2},
 		func(rt *rapid.T, c *harness.Case) {
 			kBoth := rapid.IntRange(1, 2).Draw(rt, "peers")
 			limit := int64(rapid.IntRange(2, 4).Draw(rt, "perNodeLimit"))
@@ -278,6 +310,7 @@ func runC34Schedule(rt *rapid.T, c *harness.Case, w *relayWorld, hdr pocketTypes
 	var sealStart, sealEnd int64
 	var sealedProofs int
 	sealFound := false
+	sealerCopy := map[string]bool{} // proofs in the (possibly stale) evidence object the sealer writes back
 	if withSealer {
 		s.spawn(k, func() {
 			// what SendClaimTx does with the evidence of a finished session: read it through the store iterator ...
@@ -291,10 +324,16 @@ func runC34Schedule(rt *rapid.T, c *harness.Case, w *relayWorld, hdr pocketTypes
 			}
 			it.Close()
 			s.yield("sealer.read") // (the claim sender does state reads here)
-			if !sealFound {
+			// (the claim sender only claims evidence of at least MinimumNumberOfProofs relays; the tree builder's
+			// contract is more than one leaf)
+			if !sealFound || len(ev.Proofs) < 2 {
+				sealFound = false
 				return
 			}
 			// ... and seal it while computing the Merkle root
+			for _, p := range ev.Proofs {
+				sealerCopy[proofID(p)] = true
+			}
 			sealStart = s.tick()
 			ev.GenerateMerkleRoot(sbh, limit, w.selfNode.EvidenceStore)
 			sealedProofs = len(ev.Proofs)
@@ -317,34 +356,110 @@ func runC34Schedule(rt *rapid.T, c *harness.Case, w *relayWorld, hdr pocketTypes
 			overlap = true
 		}
 	}
+	// sealedAt: clock value from which on the evidence is sealed (by the sealer goroutine or by the automatic seal
+	// when the limit is reached); relays answered later need not be recorded
+	sealedAt := int64(1) << 60
+	pollSeal := func() {
+		if sealedAt == int64(1)<<60 && viewEvidence(w.selfNode, hdr).sealed {
+			sealedAt = s.tick()
+		}
+	}
+	// contended: while one relay goroutine was parked between validation and storage, another relay goroutine was
+	// scheduled (on a tree without serialization it then overlaps, on a tree with a lock it blocks)
+	contended := false
 	for _, pick := range schedule {
-		if s.step(pick) == -1 {
+		inside := -1
+		for g := 0; g < k; g++ {
+			if s.state[g] == "relay.validated" || s.state[g] == "setproof.read" {
+				inside = g
+			}
+		}
+		id := s.step(pick)
+		if id == -1 {
 			break
 		}
+		if inside >= 0 && id != inside && id < k {
+			contended = true
+		}
 		noteOverlap()
+		pollSeal()
+	}
+	for len(s.parked()) > 0 {
+		s.step(0)
+		pollSeal()
 	}
 	if !s.finish() {
 		rt.Fatalf("schedule did not reach quiescence: %v", s.trace)
 	}
+	if sealStart > 0 && sealStart < sealedAt {
+		sealedAt = sealStart
+	}
 	pocketTypes.VerifYield = nil
 	if overlap {
 		c.Label("overlap")
+	}
+	if contended {
+		c.Label("contended")
 		c.NonTrivial()
+	}
+	for _, e := range s.trace {
+		if strings.HasSuffix(e, "@blocked") {
+			c.Label("blocked-on-lock")
+			break
+		}
 	}
 	c.AddExtra("schedules", 1)
 
 	// ---- oracle at quiescence
 	view := viewEvidence(w.selfNode, hdr)
-	desc := fmt.Sprintf("round %d: k=%d distinct=%d assign=%v pre=%d limit=%d sealer=%v trace=%s results=%s stored=%s sealed(start=%d,proofs=%d)",
-		round, k, distinct, assign, pre, limit, withSealer, strings.Join(s.trace, " "), renderC34(results), view, sealStart, sealedProofs)
+	desc := fmt.Sprintf("round %d: k=%d distinct=%d assign=%v pre=%d limit=%d sealer=%v trace=%s results=%s stored=%s sealedFromTick=%d sealer(start=%d,proofs=%d)",
+		round, k, distinct, assign, pre, limit, withSealer, strings.Join(s.trace, " "), renderC34(results), view, sealedAt, sealStart, sealedProofs)
 	c.Opf("%s", desc)
 	count := map[string]int{}
 	for _, h := range view.hashes {
 		count[h]++
 	}
+	// positions in the trace: when each worker finished validating, read the evidence, wrote it back (= done)
+	pos := func(g int, point string) int {
+		want := fmt.Sprintf("g%d@%s", g, point)
+		for i, e := range s.trace {
+			if e == want {
+				return i
+			}
+		}
+		return 1 << 30
+	}
+	// The known findings (validate-then-store without a lock) are narrow: they cover only outcomes that
+	// needed the race; the same outcome without the race reports under a "-without-race" signature.
+	for g := 0; g < k; g++ {
+		h := proofID(pool[assign[g]].Proof)
+		if count[h] <= 1 || !results[g].answered {
+			continue
+		}
+		raced := false
+		for o := 0; o < k; o++ {
+			if o != g && assign[o] == assign[g] && results[o].answered &&
+				pos(g, "relay.validated") < pos(o, "done") && pos(o, "relay.validated") < pos(g, "done") {
+				raced = true
+			}
+		}
+		if raced {
+			c.Violation("C34/evidence/duplicate-proof-stored", "%s: proof %.12s stored %d times (identical relays validated before either was stored)", desc, h, count[h])
+		} else {
+			c.Violation("C34/evidence/duplicate-proof-stored-without-race", "%s: proof %.12s stored %d times although the identical relays did not overlap", desc, h, count[h])
+		}
+	}
 	for h, cnt := range count {
 		if cnt > 1 {
-			c.Violation("C34/evidence/duplicate-proof-stored", "%s: proof %.12s stored %d times", desc, h, cnt)
+			owned := false
+			for g := 0; g < k; g++ {
+				if proofID(pool[assign[g]].Proof) == h && results[g].answered {
+					owned = true
+				}
+			}
+			if !owned {
+				c.Violation("C34/evidence/duplicate-proof-stored-without-race", "%s: proof %.12s stored %d times", desc, h, cnt)
+			}
 		}
 	}
 	if view.num != int64(len(view.hashes)) {
@@ -357,7 +472,7 @@ func runC34Schedule(rt *rapid.T, c *harness.Case, w *relayWorld, hdr pocketTypes
 		c.Label("limit-reached")
 	}
 	for h := range preHashes {
-		if count[h] == 0 && (!withSealer || !sealFound) {
+		if count[h] == 0 {
 			c.Violation("C34/evidence/earlier-relay-lost", "%s: a relay served before the race is no longer stored", desc)
 		}
 	}
@@ -369,16 +484,39 @@ func runC34Schedule(rt *rapid.T, c *harness.Case, w *relayWorld, hdr pocketTypes
 		if !res.signedOK {
 			c.Violation("C34/response/not-signed-by-node", "%s: g%d answered without a valid node signature", desc, g)
 		}
-		if withSealer && sealFound && res.at > sealStart {
-			continue // answered after the seal began: the property does not say it must be recorded
+		if res.at > sealedAt {
+			c.Label("answered-after-seal")
+			continue // answered after the evidence was sealed: the property does not say it must be recorded
 		}
-		if count[pool[res.relay].Proof.HashStringWithSignature()] == 0 {
-			if withSealer && sealFound {
-				c.Violation("C34/seal/answered-relay-dropped-by-seal", "%s: g%d was answered (tick %d) before the seal began (tick %d) but its proof is not in the sealed evidence", desc, g, res.at, sealStart)
-			} else {
-				c.Violation("C34/evidence/answered-relay-not-recorded", "%s: g%d was answered with a signed response but its proof is not stored", desc, g)
+		h := proofID(pool[res.relay].Proof)
+		if count[h] == 0 {
+			switch {
+			case sealStart > 0 && !sealerCopy[h] && pos(k, "sealer.read") < pos(g, "done"):
+				c.Violation("C34/seal/answered-relay-dropped-by-seal", "%s: g%d was answered (tick %d) between the sealer's read and its seal (tick %d): the sealed evidence written back does not contain its proof", desc, g, res.at, sealStart)
+			default:
+				raced := false
+				for o := 0; o < k; o++ {
+					// another worker read the evidence before g wrote it and wrote its stale copy afterwards
+					if o != g && pos(o, "setproof.read") < pos(g, "done") && pos(g, "done") < pos(o, "done") {
+						raced = true
+					}
+				}
+				if raced {
+					c.Violation("C34/evidence/answered-relay-not-recorded", "%s: g%d was answered with a signed response (tick %d, evidence sealed from tick %d) but a concurrent relay overwrote its proof", desc, g, res.at, sealedAt)
+				} else {
+					c.Violation("C34/evidence/answered-relay-not-recorded-without-race", "%s: g%d was answered with a signed response (tick %d, evidence sealed from tick %d) but its proof is not stored, and no concurrent write explains it", desc, g, res.at, sealedAt)
+				}
 			}
 		}
+	}
+	answered := 0
+	for _, res := range results {
+		if res.answered {
+			answered++
+		}
+	}
+	if int64(answered+pre) > limit {
+		c.Label("served-beyond-allowance") // observation only: the property bounds what is stored, not what is served
 	}
 	_ = sealEnd
 }
